@@ -396,7 +396,7 @@ theorem update_extends_observed_series (V : Vals α) (R : Regressor α) (s : Str
     intro β pick a b n hn
     subst hn
     cases b <;> simp [mergeAt, mergeTail]
-  unfold update fittedFc
+  unfold update updateMerge fittedFc
   simp only [h, Bool.false_and, Bool.false_eq_true, if_false, hoff, e, hm _ y yNew y.length rfl]
   cases X with
   | none => cases XNew <;> rfl
@@ -420,7 +420,7 @@ theorem update_refit_eq_fit (V : Vals α) (R : Regressor α) (fc : Fc α) (u0 : 
       fit V R { fc with y := y', X := X', cutoff := u0 + yNew.length - 1 } fc.t0 y' X' (some fh) := by
   intro off y' X'
   have h : yNew.isEmpty = false := by cases yNew <;> simp_all
-  unfold update
+  unfold update updateMerge
   simp only [h, Bool.false_and, Bool.false_eq_true, if_false, if_true, hfh]
   rfl
 
@@ -450,24 +450,56 @@ theorem predict_ignores_data_after_cutoff (V : Vals α) (fc : Fc α) (fh : Optio
   simp only [hls, hx, Option.isSome_map]
   cases fc.X <;> simp [hls]
 
-/-- `update_predict` leaves the cutoff where it was (while the remembered series has grown), which is
-exactly the situation `predict_ignores_data_after_cutoff` covers. -/
-theorem update_predict_restores_cutoff (V : Vals α) (R : Regressor α) (fc fc' : Fc α) (u0 : Int) (yNew : List α)
-    (refit : Bool) (h : (updatePredict V R fc u0 yNew refit).2 = .ok fc') : fc'.cutoff = fc.cutoff := by
-  unfold updatePredict at h
-  cases hf : fc.fh with
-  | none => simp [hf] at h
-  | some fh =>
-    simp only [hf] at h
-    split at h
-    · simp at h
-    · split at h
-      · simp at h
-      · simp only [Except.map] at h
-        split at h
-        · simp at h
-        · injection h with h
-          rw [← h]
+/-- **`update_predict` leaves the cutoff where it was — whether it returns or raises** (exogenous data
+refused, new data too short for the splitter, empty data, no horizon, a regressor failing in the middle of
+the moving-cutoff loop), while the remembered series may have grown: exactly the situation
+`predict_ignores_data_after_cutoff` covers, so the next `predict` answers from the true cutoff. -/
+theorem update_predict_restores_cutoff (V : Vals α) (R : Regressor α) (fc : Fc α) (u0 : Int) (yNew : List α)
+    (Xup : Option (List (List α))) (refit : Bool) (b : Budget) :
+    (updatePredict V R fc u0 yNew Xup refit b).2.2.1.cutoff = fc.cutoff := by
+  unfold updatePredict
+  split
+  · rfl
+  · split
+    · rfl
+    · split <;> rfl
+
+/-- **A refused `predict` or a failed input validation changes nothing the window depends on**: whatever
+one operation does — succeed, or fail at any point the model covers — the stored data, the cutoff and the
+fitted clones afterwards are those the code's ordering leaves, and for `predict` they are untouched
+(only the optional-horizon mixin may have stored the new horizon). -/
+theorem predict_op_keeps_state (V : Vals α) (R : Regressor α) (fc : Fc α) (b : Budget) (fh : Option (List Int))
+    (Xp : Option (List (List α))) :
+    let fc' := (stepOp V R fc b (.predict fh Xp)).1
+    fc'.y = fc.y ∧ fc'.X = fc.X ∧ fc'.cutoff = fc.cutoff ∧ fc'.t0 = fc.t0 ∧ fc'.ests = fc.ests ∧ fc'.wl_ = fc.wl_ := by
+  simp only [stepOp]
+  split
+  · simp
+  · split
+    · simp
+    · split <;> simp
+
+/-- **Every public construction path builds the same forecaster**: `make_reduction`, the strategy classes
+(any `step_length ≥ 1`, which is validated and otherwise unused) and the deprecated factories
+`ReducedForecaster` / `ReducedRegressionForecaster` (which accept only `step_length = 1`) — so every clause
+above holds for each of them with the `window_length` the caller passed. -/
+theorem construction_path_irrelevant (V : Vals α) (R : Regressor α) (via : Via) (step st : Int) (s : Strategy)
+    (sci : Scitype) (wl : WLRaw) (t0 : Int) (y : List α) (X : Option (List (List α))) (fhFit : Option (List Int))
+    (b : Budget) (ops : List (Op α)) (hc : construct via step = .ok st) (hst : 1 ≤ st) :
+    runHist V R via step s sci wl t0 y X fhFit b ops = runHist V R .make 1 s sci wl t0 y X fhFit b ops := by
+  have h : ¬ st < 1 := by omega
+  have h1 : construct .make 1 = .ok 1 := rfl
+  unfold runHist
+  simp only [hc, h1, h, if_false]
+  simp
+
+/-- the deprecated factories refuse a `step_length` other than 1 -/
+theorem deprecated_factories_refuse_step (V : Vals α) (R : Regressor α) (step : Int) (s : Strategy)
+    (sci : Scitype) (wl : WLRaw) (t0 : Int) (y : List α) (X : Option (List (List α))) (fhFit : Option (List Int))
+    (b : Budget) (ops : List (Op α)) (hs : step ≠ 1) :
+    runHist V R .reducedForecaster step s sci wl t0 y X fhFit b ops = ([], .error .value) ∧
+    runHist V R .reducedRegressionForecaster step s sci wl t0 y X fhFit b ops = ([], .error .value) := by
+  simp [runHist, construct, hs]
 
 /-- **The order in which the user lists the steps is irrelevant**: `check_fh` stores the horizon
 sorted, so every statement above (made for the stored, increasing order) covers any permutation. -/
